@@ -5,6 +5,10 @@ C20, parser side: **no hang** — `ParserDoc`: `parse_section`, the block / sect
 namespace Octave
 namespace Parser
 
+-- the proofs below execute every path of large `do` blocks symbolically: 5× the default budget, so that no proof
+-- sits at the edge of the deterministic timeout
+set_option maxHeartbeats 1000000
+
 theorem trackKey_spec {kp : KeyPos} {key : Str} {line : Nat} {r : List Token} (_ : True) :
     wpr (trackKey kp key line) r (fun _ r' => Same r r') := by
   unfold trackKey
@@ -48,7 +52,6 @@ def SpecSL (fuel : Nat) : Prop :=
   ∀ {ci li : Nat} {pend : List Str} {ch : List Node} {kp : KeyPos} {r : List Token}, (EofEnd r ∧ cA r + 3 ≤ fuel) →
   wpr (sectionLoop fuel ci li pend ch kp) r (fun _ r' => Le r r')
 
-set_option maxHeartbeats 4000000 in
 theorem parseSection_step {n : Nat} (ihB : SpecB n) (ihM : SpecM n) : SpecS (n + 1) := by
   unfold SpecS SpecB SpecM at *
   intro lead r h
@@ -56,7 +59,6 @@ theorem parseSection_step {n : Nat} (ihB : SpecB n) (ihM : SpecM n) : SpecS (n +
   wp_ind [ihB, ihM]
   all_goals wp_fin
 
-set_option maxHeartbeats 4000000 in
 theorem parseSectionMarker_step {n : Nat} (ihSL : SpecSL n) : SpecM (n + 1) := by
   unfold SpecM SpecSL at *
   intro r h
@@ -64,7 +66,6 @@ theorem parseSectionMarker_step {n : Nat} (ihSL : SpecSL n) : SpecM (n + 1) := b
   wp_ind [ihSL]
   all_goals wp_fin
 
-set_option maxHeartbeats 4000000 in
 theorem sectionLoop_step {n : Nat} (ihS : SpecS n) (ihSL : SpecSL n) : SpecSL (n + 1) := by
   unfold SpecS SpecSL at *
   intro ci li pend ch kp r h
@@ -75,7 +76,6 @@ theorem sectionLoop_step {n : Nat} (ihS : SpecS n) (ihSL : SpecSL n) : SpecSL (n
     | contradiction
     | (exfalso; generalize (hd _).type = t at *; cases t <;> simp_all)
 
-set_option maxHeartbeats 4000000 in
 theorem blockLoop_step {n : Nat} (ihS : SpecS n) (ihB : SpecB n) : SpecB (n + 1) := by
   unfold SpecS SpecB at *
   intro ci li pend ch kp r h
